@@ -10,6 +10,7 @@ import (
 	"fmt"
 	"math"
 	"strings"
+	"time"
 
 	"github.com/robertkrimen/otto"
 	. "ottoh/lib"
@@ -232,6 +233,49 @@ func main() {
 			env.Add(fmt.Sprintf("StackCase %d %d %s %d %s %s", L, d, Cz(cls), reached, Cz(int64(depth)), Cbool(same)),
 				fmt.Sprintf("stack limit=%d nesting=%d -> %s depthAtRest=%d repeatSame=%v", L, d, res, depth, same), "stack", d >= L-1 && d <= L+1)
 		}
+	}
+	// promptness: programs that would run forever must be stopped by one interrupt sent from another goroutine
+	spinners := []string{
+		`for (;;) {}`, `for (;;);`, `while (true) {}`, `while (true);`, `do {} while (true);`, `do ; while (true);`,
+		`var i = 0; for (;;) { i++; }`, `a: for (;;) { b: for (;;) { continue a; } }`,
+		`function f() { for (;;) {} } f();`, `function f(n) { while (true) { if (n > 50) { n = 0; } n++; } } f(0);`,
+		`[1, 2, 3].forEach(function () { while (true) {} });`, `[3, 1, 2].sort(function (a, b) { while (true) {} });`,
+		`"abc".replace(/b/, function () { for (;;) {} });`, `[1, 2].map(function () { do {} while (true); });`,
+		`var o = { valueOf: function () { for (;;) {} } }; o + 1;`, `var o = { get x() { while (true) {} } }; o.x;`,
+		`for (var k in { a: 1, b: 2 }) { for (;;) {} }`, `switch (1) { case 1: for (;;) {} }`,
+		`L: { for (;;) { if (false) { break L; } } }`, `var f = function () { for (;;) {} }; f.call(null);`,
+		`new (function () { while (true) {} })();`, `[1].reduce(function () { for (;;) {} }, 0);`,
+		`JSON.stringify({ toJSON: function () { for (;;) {} } });`, `with ({}) { for (;;) {} }`,
+	}
+	for i, src := range spinners {
+		vm := otto.New()
+		vm.Interrupt = make(chan func(), 1)
+		type res struct {
+			o Outcome
+		}
+		ch := make(chan res, 1)
+		go func() { ch <- res{RunJS(vm, src)} }()
+		time.Sleep(20 * time.Millisecond)
+		vm.Interrupt <- func() { panic(haltMsg) }
+		stopped, asPanic, rest := false, false, false
+		select {
+		case r := <-ch:
+			stopped = true
+			if s, ok := r.o.Panic.(string); ok && s == haltMsg {
+				asPanic = true
+			}
+			d, _ := vm.VerifScopeDepth()
+			rest = d == -1 && vm.VerifLabelCount() == 0
+			if rest {
+				vm.Interrupt = nil
+				fo := RunJS(vm, `6 * 7`)
+				n, _ := fo.Val.ToInteger()
+				rest = fo.Err == nil && fo.Panic == nil && n == 42
+			}
+		case <-time.After(4 * time.Second):
+		}
+		env.Add(fmt.Sprintf("LCase %d %s %s %s", i, Cbool(stopped), Cbool(asPanic), Cbool(rest)),
+			fmt.Sprintf("LCase spinner %q interrupted after 20ms: stopped=%v asPanic=%v restAndFollowup=%v", src, stopped, asPanic, rest), "promptness", true)
 	}
 	for env.Count() < env.N {
 		budget := 4 + env.Rng.Intn(14)
